@@ -12,6 +12,7 @@ import Barril.Proofs.CompoundLemmas
 import Barril.Proofs.CompoundAlgLemmas
 import Barril.Proofs.CompoundIndexLemmas
 import Barril.Gen.ThmC06Posc
+import Barril.Gen.ThmIdxPosc
 import Barril.Gen.ThmCorePosc
 import Barril.Gen.Dbs
 
